@@ -659,6 +659,12 @@ def idiom_arith(facts, s):
         o = f.origin(d)
         if o[0] == "const" and o[1].get("int", 0) != 0:
             return "I-zero: constant non-zero divisor"
+        if o[0] == "call" and callee(o[1]) == "std::mem::size_of":
+            # size_of::<T>() of a local type that holds data (an enum with several variants, or one with fields)
+            m = re.search(r"size_of::<(.+)>$", o[1].get("fnargs") or "")
+            adt = facts.adts.get(m.group(1)) if m else None
+            if adt is not None and (len(adt["variants"]) > 1 or any(v["fields"] for v in adt["variants"])):
+                return "I-zero: the divisor is size_of::<%s>(), a type that holds data" % short_path(m.group(1))
         return None
     if kind.startswith("Overflow(Shl)") or kind.startswith("Overflow(Shr)"):
         sh = t["ops"][1]
